@@ -182,7 +182,18 @@ func c04sGenLine(r *vhRng) string {
 		}
 	}
 	key := func() []byte { return keys[r.Intn(len(keys))] }
+	pool := [][]byte{r.Bytes(r.Pick(33, 40, 64, 80))}
+	for i := r.Intn(3); i > 0; i-- {
+		if r.Bool() {
+			pool = append(pool, r.Bytes(r.Pick(33, 64)))
+		} else {
+			pool = append(pool, []byte{byte(1 + r.Intn(250))})
+		}
+	}
 	val := func() []byte {
+		if r.Chance(2, 3) {
+			return pool[r.Intn(len(pool))]
+		}
 		switch r.Intn(8) {
 		case 0:
 			return r.Bytes(r.Pick(31, 32, 33, 40))
@@ -231,7 +242,7 @@ func c04sGenLine(r *vhRng) string {
 			ops = append(ops, fmt.Sprintf("gs h%d %s", h, vhHex(probe())))
 		}
 	}
-	if r.Bool() {
+	if r.Chance(2, 3) {
 		ops = append(ops, "ver h0 1")
 	}
 	mutate(0, 1+r.Intn(8))
